@@ -16,7 +16,7 @@ TraceInit == /\ l = 1 /\ plan = NoPlan /\ exch = MaxExch /\ pc = "idle" /\ gen =
              /\ tries = 0 /\ dials = 0 /\ attempts = 0 /\ budget = 3 /\ failedNow = FALSE /\ fired = 0 /\ result = <<>> /\ idleDeath = FALSE
 
 TCase == /\ More /\ Cur.ev = "case" /\ pc = "idle"
-         /\ plan' = [pt |-> Cur.pt, kind |-> Cur.kind, persist |-> Cur.persist, exch |-> Cur.exch]
+         /\ plan' = [pt |-> Cur.pt, kind |-> Cur.kind, persist |-> Cur.persist, exch |-> Cur.exch, refuse |-> Cur.refuse]
          /\ exch' = 0 /\ pc' = "idle" /\ gen' = 0 /\ dead' = FALSE /\ sent' = FALSE /\ replied' = FALSE
          /\ tries' = 0 /\ dials' = 0 /\ attempts' = 0 /\ budget' = 3 /\ failedNow' = FALSE /\ fired' = 0 /\ result' = <<>> /\ idleDeath' = FALSE
          /\ l' = l + 1
@@ -27,7 +27,7 @@ TFault == More /\ Cur.ev = "fault" /\ Cur.g = gen /\ (FaultWrite \/ FaultRead \/
 TReply == More /\ Cur.ev = "reply" /\ Cur.g = gen /\ Reply /\ l' = l + 1
 TRet == /\ More /\ Cur.ev = "ret" /\ l' = l + 1
         /\ \/ Cur.outcome = "resp" /\ RetResp
-           \/ Cur.outcome = "err" /\ RetErr
+           \/ Cur.outcome = "err" /\ (RetErr \/ RetRefused)
 
 TraceNext == TCase \/ TBegin \/ TDial \/ TRx \/ TFault \/ TReply \/ TRet
 TraceSpec == TraceInit /\ [][TraceNext]_tvars
